@@ -34,7 +34,7 @@ def longtok_jobs(tier, flags=(0, 1)):
 
 def c01(tier, seed):
     c = Check("C01", tier, seed)
-    N, NU, NT = (3, 5, 2) if tier == "quick" else (4, 7, 3)
+    N, NU, NT = (3, 5, 2) if tier == "quick" else (4, 6, 3)
     jobs = []
     for n in range(0, N + 1):
         if n <= 1:
@@ -102,6 +102,9 @@ def c02(tier, seed):
         for ctx in (0, 1):
             for n in range(0, NT + 1):
                 jobs.append(job("HOpener", [n, w, ctx], safety=True, witness_every=20))
+    for w in (1, 2, 3, 4, 6, 21, 22, 23):  # comment-like openers: the classifier slices the comment body; longer bodies over a small alphabet
+        for n in range(NT + 1, 9 if tier == "quick" else 11):
+            jobs.append(job("HOpenerAlpha", [n, w, 0], safety=True, witness_every=100))
     c.run_group("T-openers", XU, jobs)
     jobs = []
     for w in range(5):
@@ -221,6 +224,13 @@ def c13(tier, seed):
             for sep in (0, 2):
                 jobs.append(job("HXssOrT", [1, i, ctx, sep if ctx >= 2 else 0], safety=True, witness_every=3, max_witness=1))
     c.run_group("T-vectors", XSST, jobs, expect_labels=["checked"])
+    jobs = []
+    picks = [(0, i) for i in range(seed % 29, NEVENTS, 29 if tier == "quick" else 5)] + [(1, i) for i in range(0, NBLACKS, 3 if tier == "quick" else 1)] + [(2, 0)]
+    for kind, i in picks:
+        for ctx in range(1, 5):
+            for lead in range(14):
+                jobs.append(job("HXssEmbedT", [kind, i, ctx, lead], safety=True, witness_every=5, max_witness=1))
+    c.run_group("T-embed-leads", XSST, jobs, expect_labels=["checked"])
     return c.finish("model_checking", "IsXSS = OR of contexts (inputs <= %d); context verdict = verdict of embedded markup (inputs <= %d, 4 contexts); prefix without '<' (<= 2 bytes) + input <= %d" % (NO, NE, NP),
                     {"or_free_bytes": NO, "embed_free_bytes": NE, "prefix_free_bytes": NP})
 
@@ -238,8 +248,10 @@ def c15(tier, seed):
     for i in range(seed % step, NEVENTS, step):
         jobs.append(job("HXssNameNoEqT", [0, i, 1, 1], safety=True, witness_every=50, max_witness=1))
     for i in range(NBLACKS):
-        for pre, post in ((1, 1), (0, 2), (2, 0)):
+        for pre, post in ((1, 1), (0, 2), (2, 0), (0, 3)):
             jobs.append(job("HXssNameNoEqT", [1, i, pre, post], safety=True, witness_every=50, max_witness=1))
+    for i in range(seed % 40, NEVENTS, 40 if tier == "quick" else 8):
+        jobs.append(job("HXssNameNoEqT", [0, i, 0, 3], safety=True, witness_every=50, max_witness=1))
     for i in range(4):
         for pre, post in ((1, 1), (0, 2), (2, 0)):
             jobs.append(job("HXssNameNoEqT", [2, i, pre, post], safety=True, witness_every=50, max_witness=1))
@@ -249,7 +261,7 @@ def c15(tier, seed):
 
 def c16(tier, seed):
     c = Check("C16", tier, seed)
-    NU, NW = (5, 3) if tier == "quick" else (7, 4)
+    NU, NW = (5, 3) if tier == "quick" else (6, 4)
     jobs = []
     for f in range(5):
         jobs += wjobs("HLex", NU, extra=[f], split_from=4, safety=True)
@@ -329,7 +341,7 @@ URL = BASE + H("h_url.go") + S("entity.go", "strlit.go")
 
 def c06(tier, seed):
     c = Check("C06", tier, seed)
-    NU, NW = (5, 3) if tier == "quick" else (7, 4)
+    NU, NW = (5, 3) if tier == "quick" else (6, 4)
     jobs = []
     for f in range(5):
         jobs += wjobs("HSpecLex", NU, extra=[f], split_from=4, wbig=300)
@@ -431,6 +443,12 @@ def c07(tier, seed):
         for ctx in ((i % 5,) if tier == "quick" else range(5)):
             jobs.append(job("HSpecNameT", [2, i, ctx], witness_every=8, max_witness=1))
     c.run_group("T-names", SPECXSS + H("gen_vocab.go", "h_xss_tpl.go", "h_spec_xss_tpl.go"), jobs, expect_labels=["checked"])
+    jobs = []
+    for w in range(10):
+        for ctx in (0, 1):
+            for n in range(0, 4 if tier == "quick" else 6):
+                jobs.append(job("HSpecOpener", [n, w, ctx], witness_every=30))
+    c.run_group("T-openers", SPECXSS, jobs, expect_labels=["checked"])
     c.assumptions.append("text that reaches a Unicode case-folding call is ASCII (other paths are closed as excluded and counted)")
     return c.finish("model_checking", "implementation vs independently written reference (spec/h5tok.go): token streams from the 5 start contexts (inputs <= %d), from each of the 22 states at offsets 0/1 (inputs <= %d), context verdicts (inputs <= %d), IsXSS (inputs <= %d), classifiers on free strings <= %d" % (NW + 1, NS, NW, NX, NC),
                     {"W_free_bytes": NW, "state_free_bytes": NS, "classifier_free_bytes": NC, "api_free_bytes": NX})
